@@ -422,6 +422,23 @@ func c05Judge(root string, work clCase, hit c05Hit, tail []clOp, o *vfutil.Obs) 
 			return vfutil.Failf("C05/message-modified/"+hit.Name, "%s: offset %d changed", desc, g.Off)
 		}
 	}
+	// Without compaction a log never has offset gaps (C01), and retention only
+	// removes whole segments from the oldest end (C09): whatever instant the
+	// process died at, what is left must be one contiguous run of offsets.
+	compacts := false
+	for _, op := range work.Ops {
+		if op.Op == "clean" && op.Compact {
+			compacts = true
+		}
+	}
+	if !compacts {
+		for i := 1; i < len(gotOffs); i++ {
+			if gotOffs[i] != gotOffs[i-1]+1 {
+				return vfutil.Failf("C05/hole-in-recovered-log/"+hit.Name, "%s: no compaction was ever run on this log, yet the recovered log reads offsets %v (offset %d is missing between older and newer messages; files %v)", desc, gotOffs, gotOffs[i-1]+1, listDir(dir))
+			}
+		}
+		o.Label("recovered-log-checked-gap-free")
+	}
 	var missing []int64
 	for o2 := range must {
 		if !seen[o2] {
